@@ -97,7 +97,7 @@ func init() {
 			"the storage of a VM value is bounded by the length of that same storage (R-CONTAINERIDX), and the VM's index normalisers are proved to return positions within bounds (R-IDXPOST); the slot discipline of the symbol table (R-SLOTMAX).",
 		NotDecided:  "Stack balance in general, symbol-table histories (slot arithmetic), host crashes from value-level arithmetic.",
 		Assumptions: []string{"the VM dispatch is the switch over Opcode with the most cases in (*VM).Run", "ip is the instruction pointer variable of Run"},
-		Rules:       []*Rule{ruleOpTable, ruleNarrow, ruleJumpPatch, exhaustRule("Compile", 20), ruleLoopVarScope, ruleVMValues, f2iRule("pkg/bytecode", 2), ruleSlotMax, containerIdxRule("pkg/bytecode", 3), idxPostRule("pkg/bytecode"), ruleVMStack},
+		Rules:       []*Rule{ruleOpTable, ruleNarrow, ruleJumpPatch, exhaustRule("Compile", 20), ruleLoopVarScope, ruleVMValues, f2iRule("pkg/bytecode", 2), ruleSlotMax, containerIdxRule("pkg/bytecode", 3), idxPostRule("pkg/bytecode"), ruleVMStack, ruleStackEffect},
 	})
 }
 
@@ -300,7 +300,7 @@ func init() {
 			"of absolute indexes and nested tables continue the outer numbering (R-SLOTMAX).",
 		NotDecided:  "Equality of final globals in general; slot arithmetic of the symbol table; constant pooling.",
 		Assumptions: []string{},
-		Rules:       []*Rule{exhaustRule("Compile", 20), fieldCovRule("Compile"), ruleDispatch, ruleOpSem, ruleLoopVarScope, ruleVMValues, runesRule("pkg/bytecode", "stringVal", 4), f2iRule("pkg/bytecode", 2), ruleSlotMax, ruleJumpPatch},
+		Rules:       []*Rule{exhaustRule("Compile", 20), fieldCovRule("Compile"), ruleDispatch, ruleOpSem, ruleLoopVarScope, ruleVMValues, runesRule("pkg/bytecode", "stringVal", 4), f2iRule("pkg/bytecode", 2), ruleSlotMax, ruleJumpPatch, ruleStackEffect},
 	})
 }
 
